@@ -151,7 +151,9 @@ def cem_sample(
         * jnp.sqrt(constrained_var)[jnp.newaxis]
         + mean[jnp.newaxis]
     )
-    return samples
+    # a mean that rounding left slightly outside the bounds has a negative
+    # distance whose square would widen, not narrow, the search distribution
+    return jnp.clip(samples, lb, ub)
 
 
 def cem_update(
